@@ -9,7 +9,7 @@ use std::path::PathBuf;
 
 use simple_sds::bit_vector::BitVector;
 use simple_sds::ops::{BitVec, PredSucc, Rank, Select, SelectZero};
-use simple_sds::raw_vector::RawVector;
+use simple_sds::raw_vector::{AccessRaw, RawVector};
 use simple_sds::serialize::{self, Serialize as SdsSerialize};
 
 use crate::content::Content;
@@ -69,6 +69,11 @@ impl RoundTrip {
         let base = if big { *rng.pick(&[1usize << 16, 1 << 16, 1 << 17, 1 << 19, 1 << 20, 1 << 21]) } else { *rng.pick(&[1usize << 16, 1 << 16, 1 << 16, 1 << 17, 1 << 20]) };
         let words = match rng.below(6) { 0 => base - 1, 1 => base, 2 | 3 => base + 1, 4 => base + rng.range_usize(2, 5000), _ => 2 * base + 1 };
         let mut payloads = vec![gen_large_payload(rng, words)];
+        // Now and then a string just above 32 MiB or 64 MiB (multi-byte characters across every multiple of 2^25 bytes).
+        if rng.chance(1, 25) {
+            let len = *rng.pick(&[1usize << 25, 1 << 25, 1 << 26]) + rng.range_usize(3, 5000);
+            payloads[0] = Payload { leaf: Leaf::Str(Content { len, pat: crate::content::Pat::Random, salt: rng.next() & 0xFFFF }), opt: rng.below(2) as u8, none_at: None };
+        }
         if rng.bool() { payloads.push(Payload::plain(Leaf::U64(0x5E17_1E1A_0000_0001))); }
         let coarse = |rng: &mut Rng| match rng.below(5) { 0 => Chunk::Unbounded, 1 => Chunk::Max(1 << 16), 2 => Chunk::Max(4096), 3 => Chunk::Align(1 << 16), _ => Chunk::Seq(vec![100_000, 4096, 1 << 20, 65_537, 13]) };
         RoundTrip { payloads, w: WritePlan { chunk: coarse(rng), eintr: vec![], fault: None, vectored: rng.bool() }, r: ReadPlan { chunk: coarse(rng), eintr: if rng.bool() { vec![3, 17] } else { vec![] }, fault: None }, split: false, via_fs: None, via_fifo: false }
@@ -79,6 +84,8 @@ impl RoundTrip {
         let vals = match build_all(prop, &self.payloads) { Ok(v) => v, Err(v) => return out.fail(v) };
         out.stats.evaluations = 1;
         out.stats.probe_if(vals.iter().any(|v| v.size_in_elements() > (1 << 16)), "structure larger than 65536 elements");
+        out.stats.probe_if(self.payloads.iter().any(|p| matches!(&p.leaf, Leaf::Str(c) if c.len > 1 << 25)), "string above 32 MiB with characters across the 2^25-byte marks");
+        out.stats.probe_if(self.payloads.iter().any(|p| matches!(&p.leaf, Leaf::VecTriple(c) if c.len > 2731)), "vector of more than 2731 three-word items");
         let v = |clause: &str, site: &str, msg: String| Violation::new(prop, clause, site, msg);
 
         // Reference bytes: an unbounded in-memory writer.
@@ -458,7 +465,9 @@ impl StreamFault {
         let words = match rng.below(4) { 0 => base - 1, 1 => base, 2 => base + 1, _ => base + rng.range_usize(2, 3000) };
         let payload = if huge {
             // Tens of megabytes: the size class where "do not trust the length header" / "write in blocks" code paths begin.
-            match rng.below(4) {
+            match rng.below(5) {
+                // Above 64 MiB: the next threshold after 16 and 32 MiB at which loaders change strategy.
+                4 => { let c = Content { len: (1usize << 26) + rng.range_usize(8, 5000), pat: crate::content::Pat::Counter, salt: rng.next() & 0xFFFF }; Payload { leaf: if rng.bool() { Leaf::Bytes(c) } else { Leaf::Str(c) }, opt: rng.below(2) as u8, none_at: None } },
                 0 => { let c = Content { len: 8 * words + rng.range_usize(0, 7), pat: crate::content::Pat::Counter, salt: rng.next() & 0xFFFF }; Payload { leaf: Leaf::Bytes(c), opt: rng.below(2) as u8, none_at: None } },
                 1 => { let c = Content { len: 8 * words + rng.range_usize(0, 7), pat: crate::content::Pat::Counter, salt: rng.next() & 0xFFFF }; Payload { leaf: Leaf::Str(c), opt: rng.below(2) as u8, none_at: None } },
                 2 => { let c = Content { len: (1usize << 22) + rng.range_usize(1, 5000), pat: crate::content::Pat::Counter, salt: rng.next() & 0xFFFF }; Payload { leaf: Leaf::VecU64(c), opt: rng.below(2) as u8, none_at: None } },
@@ -585,7 +594,29 @@ fn answers(bv: &BitVector, mask: u8) -> Vec<u64> {
     out
 }
 
+/// The position of the r-th set bit, found by counting through the bit array: no support structure involved.
+fn select_by_scan(raw: &RawVector, r: usize) -> Option<usize> {
+    let mut left = r;
+    for i in 0..(raw.len() + 63) / 64 {
+        let mut w = raw.word(i);
+        let c = w.count_ones() as usize;
+        if left < c { for _ in 0..left { w &= w - 1; } return Some(i * 64 + w.trailing_zeros() as usize); }
+        left -= c;
+    }
+    None
+}
+
 impl Supports {
+    /// Two size classes no other scenario reaches: `which == 0`: 2^30 + 2^20 bits with rank support (a sample vector of
+    /// more than 2^21 pairs); otherwise 2^32 + 2^21 bits, one set bit in 32768, with select support (samples wider
+    /// than 32 bits). One write and one load, coarse transfers.
+    pub fn generate_giant(rng: &mut Rng, which: u64) -> Supports {
+        let (len, pat, initial) = if which == 0 { ((1usize << 30) + (1 << 20) + rng.range_usize(0, 5000), crate::content::Pat::Random, *rng.pick(&[1u8, 1, 7])) }
+            else { ((1usize << 32) + (1 << 21) + rng.range_usize(0, 5000), crate::content::Pat::Every(32_768), *rng.pick(&[2u8, 2, 3])) };
+        Supports { c: Content { len, pat, salt: rng.next() & 0xFFFF }, route: 0, initial, ops: vec![SupOp::RoundTrip],
+            w: WritePlan { chunk: Chunk::Unbounded, eintr: vec![], fault: None, vectored: false }, r: ReadPlan { chunk: Chunk::Unbounded, eintr: vec![], fault: None } }
+    }
+
     pub fn generate(rng: &mut Rng, max_bits: usize) -> Supports {
         let len = if rng.chance(1, 60) { rng.range_usize(83_521, 200_000) } else { match rng.below(8) { 0 => 0, 1 => rng.range_usize(1, 70), 2 => rng.range_usize(4000, 4200).min(max_bits), 3 => rng.range_usize(8100, 8300).min(max_bits), _ => crate::content::gen_len(rng, max_bits) } };
         let mut c = Content::generate(rng, len);
@@ -600,19 +631,26 @@ impl Supports {
     pub fn run(&self, prop: &str) -> Outcome {
         let mut out = Outcome::default();
         out.stats.evaluations = 1;
+        out.stats.probe_if(self.c.len > 1 << 32, "bitvector of more than 2^32 bits with select support written and loaded");
+        out.stats.probe_if(self.c.len > 1 << 30 && self.c.len < 1 << 32, "bitvector of more than 2^30 bits with rank support written and loaded");
         let v = |clause: &str, site: &str, msg: String| Violation::new(prop, clause, site, msg);
         let built = catch(|| {
             let mut full = build_bv(&self.c, 0, self.route);
-            full.enable_rank(); full.enable_select(); full.enable_select_zero();
+            full.enable_rank(); full.enable_select();
+            // (Above 2^31 bits the select-zero support is left out: building it walks every unset bit.)
+            if self.c.len <= 1 << 31 { full.enable_select_zero(); }
             let full_bytes = { let mut b: Vec<u8> = Vec::new(); full.serialize(&mut b).map(|_| b) };
             let bits: RawVector = build_bv(&self.c, 0, 0).into();
-            let reference = answers(&full, 7);
+            let reference = answers(&full, mask_of(&full));
             (full, full_bytes, bits, reference)
         });
         let (full, full_bytes, bits, _reference) = match built {
             Ok((f, Ok(b), bits, r)) => (f, b, bits, r),
             Ok((_, Err(e), _, _)) => return out.fail(v("harness", "serialize", format!("{}", e))),
-            Err(p) => return out.fail(v("harness", "build", p)),
+            // A panic of the harness' own code names a file under sim/src; anything else is the library refusing to
+            // build a valid bitvector, enable a support structure or answer an in-range query.
+            Err(p) if p.contains("/sim/src/") => return out.fail(v("harness", "build", p)),
+            Err(p) => return out.fail(v("answers-panic", "BitVector", format!("building the bitvector ({} bits), enabling every support structure and asking in-range queries panicked: {}", self.c.len, p))),
         };
         let run = catch(|| -> Result<(), Violation> {
             let mut cur = build_bv(&self.c, self.initial, self.route);
@@ -624,6 +662,13 @@ impl Supports {
                 if raw != &bits { return Err(v("bits-changed", step, format!("after {}: the bit array changed", step))); }
                 if cur.count_ones() != full.count_ones() || cur.len() != full.len() { return Err(v("bits-changed", step, format!("after {}: len/count_ones changed", step))); }
                 if answers(cur, model) != answers(&full, model) { return Err(v("answers-changed", step, format!("after {}: answers differ from the fully enabled original (supports {:03b})", step, model))); }
+                // With the support structure the answer is the one that counting through the bits gives without it.
+                let ones = cur.count_ones();
+                if model & 2 != 0 && ones > 0 {
+                    for r in [0usize, ones / 2, ones - 1, 4096 * 31 + 5, 4096 * 32 + 5, 4096 * 63 + 5] {
+                        if r < ones && cur.select(r) != select_by_scan(&bits, r) { return Err(v("answers-changed", step, format!("after {}: select({}) = {:?} with the support structure, counting through the bits gives {:?}", step, r, cur.select(r), select_by_scan(&bits, r)))); }
+                    }
+                }
                 Ok(())
             };
             check(&cur, model, "construction")?;
@@ -681,7 +726,7 @@ impl Supports {
             }
             // Enable the rest in a scenario-dependent order; must equal the fully enabled original.
             let order: [u8; 3] = match self.c.salt % 6 { 0 => [0, 1, 2], 1 => [0, 2, 1], 2 => [1, 0, 2], 3 => [1, 2, 0], 4 => [2, 0, 1], _ => [2, 1, 0] };
-            for o in order { match o { 0 => cur.enable_rank(), 1 => cur.enable_select(), _ => cur.enable_select_zero() } }
+            for o in order { match o { 0 => cur.enable_rank(), 1 => cur.enable_select(), _ => if self.c.len <= 1 << 31 { cur.enable_select_zero() } } }
             if cur != full { return Err(v("not-equal-to-full", "enable-rest", format!("enabling the remaining supports (order {:?}) does not give the fully enabled original", order))); }
             let mut b: Vec<u8> = Vec::new();
             cur.serialize(&mut b).map_err(|e| v("ser-error", "BitVector", format!("{}", e)))?;
